@@ -127,9 +127,15 @@ class Env:
         self.leaves = leaves
         self.extra_tags = sorted({c for l in leaves for c in l[1]}, key=name_of)
         self.counting = counting
+        # Engine names are display strings only; in half of the cases (a deterministic function of the leaves, so that
+        # replays agree) the two iteration engines carry the same name, as two instances made by the same code would.
+        from . import codec as _codec
+
+        same = int(_codec.digest(tuple((l[0], len(l[1]), l[3]) for l in leaves))[:2], 16) % 2 == 1
+        self.same_names = same
         S = (sql_engine_cls or sql.Engine)(name="S")
         A = (iter_engine_cls or iteration.Engine)(name="A")
-        B = (iter_engine_cls or iteration.Engine)(name="B")
+        B = (iter_engine_cls or iteration.Engine)(name="A" if same else "B")
         self.engines = [S, A, B]
         self.sql = S
         self.tables = []
